@@ -25,7 +25,7 @@ func init() {
 	register(&Property{
 		ID:      "C03",
 		NeedSSA: true,
-		Decided: "Narrow structural necessary conditions only: (nullwidth) every width-specific null scanner nullIndex<T> of the typed ingestion path scans elements of the width of T (it calls the kernel named after 8·sizeof(T) or the generic scanner instantiated with a type of that width), and the floating-point scanners never instantiate the generic scanner with a floating-point type (it would compare values, and -0.0 == 0, where reflect.Value.IsZero and the assembly kernels test bits), in every build configuration; (nullkinds) the reflection path decides `null` for pointer-like kinds (pointer, map, slice, interface) by IsNil, like the typed path's pointer test, never by length or zero-ness; (siblings) the entry points that shred through a shared implementation hand it the same set of level fields (composite literals passed to one callee set the same keys); (mapscratch) the map re-assembly clears its scratch element after each entry; (dispatch) the node-shape dispatchers of the typed, reflection and row paths test the same predicates (optional, repeated, list, map) in the same order. (appendalias) inside a loop, a slice built by appending to a base slice that is the same on every iteration (a parameter not always passed clipped, a field, a value computed before the loop) is not retained unless the base's capacity was clipped: retained slices would share the base's spare capacity. (accum) a recursive walk (schema tree, embedded structs) that adds to an integer parameter — column index, level, byte offset — passes, at every recursive call, an argument computed from that parameter (through arithmetic, conversions, calls that received it, maps filled with it, and the reaching definitions of local struct fields), so the running number is not restarted at a nested level. (stride) a typed write function that hands a column buffer's writeValues a scratch array of fixed-width integers reads the physical kind of the column's type in the function that builds it.",
+		Decided: "Narrow structural necessary conditions only: (nullwidth) every width-specific null scanner nullIndex<T> of the typed ingestion path scans elements of the width of T (it calls the kernel named after 8·sizeof(T) or the generic scanner instantiated with a type of that width), and the floating-point scanners never instantiate the generic scanner with a floating-point type (it would compare values, and -0.0 == 0, where reflect.Value.IsZero and the assembly kernels test bits), in every build configuration; (nullkinds) the reflection path decides `null` for pointer-like kinds (pointer, map, slice, interface) by IsNil, like the typed path's pointer test, never by length or zero-ness; (siblings) the entry points that shred through a shared implementation hand it the same set of level fields (composite literals passed to one callee set the same keys); (mapscratch) the map re-assembly clears its scratch element after each entry; (dispatch) the node-shape dispatchers of the typed, reflection and row paths test the same predicates (optional, repeated, list, map) in the same order. (appendalias) inside a loop, a slice built by appending to a base slice that is the same on every iteration (a parameter not always passed clipped, a field, a value computed before the loop) is not retained unless the base's capacity was clipped: retained slices would share the base's spare capacity. (accum) a recursive walk (schema tree, embedded structs) that adds to an integer parameter — column index, level, byte offset — passes, at every recursive call, an argument computed from that parameter (through arithmetic, conversions, calls that received it, maps filled with it, and the reaching definitions of local struct fields), so the running number is not restarted at a nested level. (stride) a typed write function that hands a column buffer's writeValues a scratch array of fixed-width integers reads the physical kind of the column's type in the function that builds it. (siblings, cont.) sibling call sites fill each literal field from the same source field.",
 		NotDecided: "the level values themselves, null-bitmap scanning, batch boundaries, the amounts added to offsets and indexes, ordering of map keys — value-dependent.",
 		Assumptions: []string{"see DESIGN.md §4 C03"},
 		Run:         runC03,
@@ -57,7 +57,7 @@ func init() {
 	register(&Property{
 		ID:      "C19",
 		NeedSSA: true,
-		Decided: "Narrow structural necessary conditions only: (siblings) the two entry points that write shredded variants (typed write path and row deconstruction) pass the same level context to the shared shredding implementation; (enum) the encoder, the size computation, the decoder and the shredded typed-write switch over the variant primitive and basic types cover every constant or fail loudly; (pagereset) the columnar leaf reader re-establishes every per-page field when it moves to a new page.",
+		Decided: "Narrow structural necessary conditions only: (siblings) the two entry points that write shredded variants (typed write path and row deconstruction) pass the same level context to the shared shredding implementation; (enum) the encoder, the size computation, the decoder and the shredded typed-write switch over the variant primitive and basic types cover every constant or fail loudly; (pagereset) the columnar leaf reader re-establishes every per-page field when it moves to a new page. (siblings, cont.) the sibling call sites of one callee fill each field of the literal they pass from the same source field of the same struct. (coladvance) a loop variable advanced by the result of a leaf-counting helper (numLeafColumns*) is advanced on every path around the loop.",
 		NotDecided: "equality of decoded values, metadata dictionaries, offsets inside nested arrays and objects, shredding and reconstruction — entirely value-dependent.",
 		Assumptions: []string{"see DESIGN.md §4 C19"},
 		Run:         runC19,
@@ -776,6 +776,7 @@ func runC12(c *Ctx) {
 func runC19(c *Ctx) {
 	p := c.P
 	literalSiblingRule(c, "C19.siblings", 1)
+	runColumnAdvanceRule(c, "C19.coladvance", 2)
 	// enum coverage of the primitive type in the variant package
 	if et := p.LookupType("variant.PrimitiveType"); c.Anchor("C19.enum", "variant.PrimitiveType", et != nil) {
 		var fns []string
